@@ -1,5 +1,7 @@
 #!/usr/bin/env python3
-"""tools/sweep_clean.py [--seeds 2,3,4,5] [--tier quick] [ids...]
+"""tools/sweep_clean.py [--seeds 2,3,4,5] [--tier quick] [--boost] [ids...]
+
+--boost forces the deepened quick tier (x4 budget, 16 workers) that ./check uses on a changed tree.
 
 Run every claimed check on the UNCHANGED /repo for several seeds and list every run that did not
 exit 0 (a VIOLATION on the unchanged tree is either a genuine defect or a false alarm and must be
@@ -20,7 +22,8 @@ bad = []
 for s in seeds:
     for pid in ids:
         t = time.time()
-        r = subprocess.run([os.path.join(HERE, "check"), pid, "--tier", tier, "--seed", str(s)], cwd=HERE,
+        env = dict(os.environ, VERIF_FORCE_BOOST="1") if "--boost" in sys.argv else None
+        r = subprocess.run([os.path.join(HERE, "check"), pid, "--tier", tier, "--seed", str(s)], cwd=HERE, env=env,
                            stdout=subprocess.PIPE, stderr=subprocess.STDOUT, text=True)
         lines = [l for l in r.stdout.splitlines() if l.startswith(("VIOLATION", "HARNESS", pid + " "))]
         print(f"{pid} seed={s} exit={r.returncode} {time.time() - t:.0f}s | " + " | ".join(l[:260] for l in lines[-3:]), flush=True)
